@@ -24,7 +24,7 @@ ASSUMPTIONS = [
     'member penalties return arbitrary non-negative reals (penalty combinators); conditions arbitrary reals (not_)',
 ]
 BOUNDS = {'quick': dict(members='1..2', maxiter='1..2', dim='1..2'), 'thorough': dict(members='1..3', maxiter='1..3', dim='1..2')}
-BUDGET = {'quick': 400, 'thorough': 3600}
+BUDGET = {'quick': 1800, 'thorough': 3600}
 
 
 class Member(object):
